@@ -39,6 +39,7 @@ type Spec struct {
 	Resp        RespSpec          `json:"resp,omitempty"`
 	MoreReqs    []ReqSpec         `json:"more_reqs,omitempty"`    // request leg: further requests validated before any forwarded body is read
 	More        []RespSpec        `json:"more,omitempty"`         // response leg: further responses validated before any body is read back
+	MapSeed     uint64            `json:"map_seed,omitempty"`     // 0 = sorted map iteration inside the library; else a seeded permutation per site and visit (the neutral run always uses sorted order)
 	ReadReverse bool              `json:"read_reverse,omitempty"` // read the bodies back in reverse order
 	ReadBuf     int               `json:"read_buf,omitempty"`     // buffer size of the next handler
 	Again       bool              `json:"again,omitempty"`        // a fault-free request follows on the same document
@@ -258,6 +259,9 @@ func Gen(seed uint64, prop, tier string) *Spec {
 		s.Leg = "response"
 	}
 	s.ReadBuf = simfw.Pick(r, []int{1, 7, 64, 512, 4096})
+	if r.Chance(1, 3) {
+		s.MapSeed = r.Uint64() | 1
+	}
 	if s.Leg == "response" {
 		genResponse(r, s)
 		return s
